@@ -30,8 +30,10 @@ class Proxy:
 
     def execute(self, sql: Any, *a: Any, **k: Any) -> Any:
         self._hook("execute", sql)
-        self._real.execute(sql, *a, **k)
-        self._hook("executed", sql)
+        try:
+            self._real.execute(sql, *a, **k)
+        finally:
+            self._hook("executed", sql)
         return self
 
     def cursor(self) -> "Proxy":
